@@ -81,7 +81,7 @@ func corrProbe(r *Rng, which string) (line, got string) {
 			p[i].X = p[i].X*3 + int64(r.Intn(3))
 			p[i].Y = p[i].Y*3 + int64(r.Intn(3))
 		}
-		eps := []float64{0, 0.5, 1, 1.5, 2, 3, 1e9}[r.Intn(7)]
+		eps := []float64{0, 0.5, 1, 1.5, 2, 3, 1e9, 1e154, 1.4e154, 1e200, math.Inf(1)}[r.Intn(11)]
 		closed := r.Bool()
 		return fmt.Sprintf("model simp64 %d %d %s", math.Float64bits(eps), b2i(closed), pathStr(p)), showPath(clip.SimplifyPath64(p, eps, closed))
 	case "pip":
@@ -104,7 +104,7 @@ func corrProbe(r *Rng, which string) (line, got string) {
 			got = "fault"
 		}
 		return fmt.Sprintf("model mink %d %d %s %s", b2i(isSum), b2i(closed), pathStr(pat), pathStr(path)), got
-	case "windc", "windx":
+	case "windc", "windx", "windd":
 		fr := r.Intn(4)
 		edge := func() clip.VEdge {
 			e := clip.VEdge{WindDx: 1 - 2*r.Intn(2), PolyType: clip.PathType(r.Intn(2))}
@@ -149,6 +149,25 @@ func corrProbe(r *Rng, which string) (line, got string) {
 		}
 		ct := clip.ClipType(r.Range(1, 4))
 		got := ""
+		if which == "windd" {
+			// hotness either as the sweep would have it (hot iff contributing) or arbitrary
+			hot1, hot2 := r.Bool(), r.Bool()
+			if consistent || r.Chance(0.5) {
+				hot1 = clip.VIsContributingClosed(clip.FillRule(fr), ct, e1.PolyType, e1.WindCount, e1.WindCount2)
+				hot2 = clip.VIsContributingClosed(clip.FillRule(fr), ct, e2.PolyType, e2.WindCount, e2.WindCount2)
+			}
+			front1, same := r.Bool(), r.Bool()
+			if f := safeCall(func() {
+				a, b, c, d, h1, h2, nr, ok := clip.VIntersectDecide(ct, clip.FillRule(fr), e1, e2, hot1, hot2, front1, same)
+				got = fmt.Sprintf("%d %d %d %d %d %d %d", a, b, c, d, b2i(h1), b2i(h2), nr)
+				if !ok {
+					got += " failed"
+				}
+			}); f != "" {
+				got = "fault " + f
+			}
+			return fmt.Sprintf("model windd %d %d %d %d %d %d%s", int(ct), fr, b2i(hot1), b2i(hot2), b2i(front1), b2i(same), show(e1, e2)), got
+		}
 		if f := safeCall(func() {
 			a, b, c, d := clip.VIntersectWind(ct, clip.FillRule(fr), e1, e2)
 			got = fmt.Sprintf("%d %d %d %d", a, b, c, d)
@@ -309,6 +328,6 @@ func corrStage(name string, probes []string, quick, thorough int, rule string) {
 
 func init() {
 	corrStage("gen-corr", genProbes, 56000, 2800000, "translator validation: every generated function (Gen.*) is evaluated by the Lean oracle on operand-value inputs and compared with the real function called in-process (sign only for float64 cross / dot products, bit patterns for Area64 and PerpendicDistFromLineSqr64); non-trivial = any probe with a non-empty argument list")
-	corrStage("wind-corr", []string{"windc", "windx", "windc"}, 45000, 2000000, "correspondence of the winding-count bookkeeping model (Model.Wind) with the real setWindCountForClosedPathEdge / setWindCountForOpenPathEdge / intersectEdges run on synthetic active-edge lists (verif hook): 0-5 edges left of the new edge, subject / clip / open edges, all four fill rules, counts either produced by the real insertion (consistent states) or arbitrary in -3..3; resulting counts compared exactly")
+	corrStage("wind-corr", []string{"windc", "windx", "windd", "windc", "windd"}, 60000, 2500000, "correspondence of the winding-count bookkeeping model (Model.Wind) with the real setWindCountForClosedPathEdge / setWindCountForOpenPathEdge / intersectEdges (counts, hotness afterwards and output records created, for hot / cold / front / back / shared-record combinations) run on synthetic active-edge lists (verif hook): 0-5 edges left of the new edge, subject / clip / open edges, all four fill rules, counts either produced by the real insertion (consistent states) or arbitrary in -3..3; resulting counts compared exactly")
 	corrStage("models-corr", modelProbes, 50000, 2500000, "function-level correspondence of the hand models (TrimCollinear64, SimplifyPath64, PointInPolygon, StripDuplicates, minkowskiInternal): random paths of 0-8 vertices on 2-4 wide grids (forcing duplicates, collinear runs, wrap-around cases) at three magnitudes; outputs compared exactly")
 }
